@@ -17,7 +17,7 @@
    C07_monitor is the conformance with the eviction-free trace monitor (an entry fires iff it is
    the t-th share ever accepted for its key over its root) and needs the two environment guards. *)
 From Coq Require Import List Arith Bool.
-From Charon Require Import Stores.ParSigDB Stores.ParSigDBFacts.
+From Charon Require Import Stores.ParSigDB Stores.ParSigDBFacts Flow.AppWiringCheck Flow.AppWiringFacts gen.AppWiring.
 Import ListNotations.
 
 (* Every trace of the model, in an environment where the deadliner answers Exempt exactly for exit /
@@ -205,3 +205,9 @@ Theorem C07_nonvacuous :
   monitor 3 ex_trace = true.
 Proof. exact ex_trace_accepted. Qed.
 Print Assumptions C07_nonvacuous.
+
+(* The threshold the node hands to this store is the aggregator's threshold, lock.Threshold (app/app.go
+   wireCoreWorkflow, regenerated from the source on every run by translator/appwire). *)
+Theorem C07_app_threshold : threshold_check app_defs = true.
+Proof. exact app_threshold_ok. Qed.
+Print Assumptions C07_app_threshold.
